@@ -70,7 +70,7 @@ theorem frame_popPending (w : World) : Frame w w.popPending :=
 
 theorem frame_deliver (env : Env) (w : World) (m : Msg) : Frame w (w.deliver env m).1 := by
   unfold World.deliver
-  have h0 : Frame w { w with stage := w.stage ++ [Fields.update m w.globals] } :=
+  have h0 : Frame w { w with stage := w.stage ++ [Fields.update m w.globals], stageAt := w.stageAt ++ [w.dests] } :=
     ⟨rfl, rfl, rfl, rfl, rfl, rfl, rfl, Nat.le_refl _, fun _ a h => ⟨a, h, rfl, rfl, Nat.le_refl _, id, rfl, rfl, rfl⟩,
       Nat.le_refl _, List.prefix_refl _, List.prefix_refl _, by simp, id⟩
   simp only
